@@ -1,6 +1,8 @@
 #!/bin/bash
-# usage: tools/try_seed.sh C05-A C05 [tier]   -- apply a seeded change to /repo, run the check, undo
+# usage: tools/try_seed.sh C05-A C05 [tier] [nlines]  -- apply a seeded change to a scratch clone of /repo, run the check against it, remove the clone
 S=$1; P=$2; T=${3:-quick}
-git -C /repo apply --3way /verif/seeded/$S/patch.diff >/dev/null 2>&1 || { echo "patch does not apply"; git -C /repo reset -q --hard HEAD; exit 1; }
-./check $P $T -no-evidence 2>&1 | grep -E "^(VIOLATION|UNCONFIRMED|INCONCLUSIVE|RESULT|KNOWN)" | cut -c1-260 | awk '{k=$1" "$4" "$5; if(!(k in s)){s[k]=1; print}}' | head -${4:-8}
-git -C /repo reset -q --hard HEAD
+R=$(mktemp -d /tmp/try_seed.XXXXXX)
+git clone -q /repo $R/repo || exit 1
+git -C $R/repo apply --3way /verif/seeded/$S/patch.diff >/dev/null 2>&1 || { echo "patch does not apply"; rm -rf $R; exit 1; }
+cd /verif && ./check $P $T -no-evidence -repo $R/repo/v8 2>&1 | grep -E "^(VIOLATION|UNCONFIRMED|INCONCLUSIVE|RESULT|KNOWN)" | cut -c1-260 | awk '{k=$1" "$4" "$5; if(!(k in s)){s[k]=1; print}}' | head -${4:-8}
+rm -rf $R
